@@ -9,7 +9,10 @@ _RULE = ("histories of 10-60 (thorough: 10-130) operations by 4 actors (creator 
          "who has stake, a pool that is running, the creator of an editable pool) so that most operations succeed, the rest stay "
          "blind; every history is followed by the full-withdrawal epilogue (every farmer unstakes "
          "everything from every pool). non-trivial = at least two farmers hold stake in one pool at the same time and some "
-         "reward-per-share * stake has a fractional part; distinct = by hash of the history")
+         "reward-per-share * stake has a fractional part; distinct = by hash of the history. One history in five funds an exact "
+         "multiple of the per-block reward, starts now and is staked from its first block on; operations are aimed at exactly "
+         "the pool's last block after idle blocks. Stream 'manypools': 11-12 pools (farm-2..farm-9 tiny and idle) so that pool "
+         "ids are string prefixes of one another, then 22-37 operations on farm-1, farm-10, farm-11 and the last pool")
 
 _TRUST = ["coinswap (liquidity-token validation) is used as set up by the harness: two pools lpt-1, lpt-2",
           "community-pool farms (MsgCreatePoolWithCommunityPool / HandleCreateFarmProposal) are not modelled and cannot be exercised: "
@@ -19,10 +22,10 @@ _TRUST = ["coinswap (liquidity-token validation) is used as set up by the harnes
 PROPS["C05"] = dict(
     driver="farm",
     props_file="Props/C05.v",
-    coq_targets=["Farm/Check.vo"],
+    coq_targets=["Farm/Check.vo", "Base/DecCheck.vo"],   # DecCheck: the shared arith stream attached to C05 by props.py
     check_module="Farm.Check",
     check_fn="check_case_C05",
-    streams=[dict(name="main", quick=128, thorough=4000)],
+    streams=[dict(name="main", quick=122, thorough=4000), dict(name="manypools", quick=6, thorough=160)],
     coq_shard=8,
     rule=_RULE,
     codes={1: "stakes-do-not-sum-to-pool-total", 2: "escrow-differs-from-stakes-plus-budgets",
@@ -46,13 +49,14 @@ PROPS["C06"] = dict(
     coq_targets=["Farm/Check.vo"],
     check_module="Farm.Check",
     check_fn="check_case_C06",
-    streams=[dict(name="main", quick=128, thorough=4000)],
+    streams=[dict(name="main", quick=122, thorough=4000), dict(name="manypools", quick=6, thorough=160)],
     coq_shard=8,
     rule=_RULE,
     codes={10: "pool-or-rule-vanished", 11: "budget-total-wrong", 12: "remaining-not-refunded-at-end",
            13: "released-more-than-remaining", 14: "release-not-per-block-times-span-while-staked",
            15: "balance-change-not-as-stated", 16: "reward-collector-change-wrong",
-           17: "remaining-does-not-cover-schedule", 18: "payout-outside-fair-share-bound"},
+           17: "remaining-does-not-cover-schedule", 18: "payout-outside-fair-share-bound",
+           19: "payout-differs-from-block-by-block-share"},
     explain={10: "a pool or one of its reward rules disappeared",
              11: "a rule's total budget changed by something other than a top-up (or a new pool's budget is not what was funded)",
              12: "after the pool's end block / destroy the remaining budget is not zero (refund missing)",
@@ -61,7 +65,9 @@ PROPS["C06"] = dict(
              15: "an actor's balance changed by something other than stake / unstake / rewards / budget / fee / the refund of exactly the remaining budget to the creator",
              16: "the reward collector's balance changed by something other than released - paid",
              17: "a live pool's remaining budget no longer covers per-block * (end - last distribution)",
-             18: "a farmer's cumulative payout differs from the exact stake-weighted share by n interactions or more"},
+             18: "a farmer's cumulative payout differs from the exact stake-weighted share by n interactions or more",
+             19: "a farmer's cumulative payout differs by n interactions or more from the block-by-block stake-weighted share "
+                 "that the harness computes independently from the stakes observed at the start of every block"},
     trusted_base=_TRUST,
     assumptions=["amounts stay far below the 256-bit range of sdkmath.Int (the generator's balances are 10^30)",
                  "theorems: message senders are not module accounts; at genesis the farm module account is empty and the reward collector non-negative",
